@@ -129,8 +129,8 @@ static void vf_op_dies(void) {
 }
 static struct proto any_proto(void) {
   struct proto p;
-  p.ph = VF_nondet_u8(); p.start_ran = VF_nondet_bool(); p.deferred = VF_nondet_u8(); p.holder = VF_nondet_bool(); p.claim = VF_nondet_u8();
-  p.completes = VF_nondet_u8(); p.stop_cb = VF_nondet_u8(); p.dead = VF_nondet_bool();
+  p.ph = VF_nondet_u8(); p.start_ran = VF_nondet_bool() ? 1 : 0; p.deferred = VF_nondet_u8(); p.holder = VF_nondet_bool() ? 1 : 0; p.claim = VF_nondet_u8();
+  p.completes = VF_nondet_u8(); p.stop_cb = VF_nondet_u8(); p.dead = VF_nondet_bool() ? 1 : 0;
   return p;
 }
 /* strong references to the heap cell: the operation's holder, locked shared_ptrs of this call, locked shared_ptrs of callback frames elsewhere */
@@ -340,6 +340,7 @@ __CPROVER_ensures(G.claim == CL_ME ==> (G.depth0 == 0 && __CPROVER_return_value 
 __CPROVER_ensures(G.depth == G.depth0 && (G.dead || OP.state_.recursion_ == G.depth0))
 __CPROVER_ensures(DEAD_OK)                               /* nothing of a destroyed operation is touched */
 __CPROVER_ensures(G.body_start == 0 && G.body_stop == 0 && G.stop_constructs == 0)
+__CPROVER_ensures(G.any_throw ==> G.deferred == 1)       /* a throwing body ends in a stored result (set_error unless something was stored before) */
 /*@BODY op_callback_impl*/
 #else
 /* contract stub for the callback objects */
@@ -394,6 +395,7 @@ __CPROVER_ensures(G.claim != CL_ME ==> G.stop_destructs == 0)
 __CPROVER_ensures(G.depth == G.depth0 && (G.dead || OP.state_.recursion_ == G.depth0))
 __CPROVER_ensures(DEAD_OK)
 __CPROVER_ensures(G.body_start == 0 && G.body_cb == 0 && G.stop_constructs == 0)
+__CPROVER_ensures(G.any_throw ==> G.deferred == 1)
 /*@BODY stop_callback*/
 #undef VF_CUR_OP
 
@@ -511,8 +513,8 @@ __CPROVER_ensures(G.lambda_calls == 1 && G.lambda_evt == LE_STOP && G.lambda_sel
 /* ---------------- harnesses ---------------- */
 static void h_zero(int me, int mode) {
   G.me = me; G.env_mode = mode;
-  G.sends_done = VF_nondet_bool(); G.nothrow_start = VF_nondet_bool(); G.nothrow_stop = VF_nondet_bool(); G.nothrow_body = VF_nondet_bool();
-  G.has_fallback = VF_nondet_bool(); G.has_start = VF_nondet_bool(); G.takes_self = VF_nondet_bool();
+  G.sends_done = VF_nondet_bool() ? 1 : 0; G.nothrow_start = VF_nondet_bool() ? 1 : 0; G.nothrow_stop = VF_nondet_bool() ? 1 : 0; G.nothrow_body = VF_nondet_bool() ? 1 : 0;
+  G.has_fallback = VF_nondet_bool() ? 1 : 0; G.has_start = VF_nondet_bool() ? 1 : 0; G.takes_self = VF_nondet_bool() ? 1 : 0;
   G.depth = 0; G.depth0 = 0; G.my_refs = 0; G.inflight_env = 0; G.cb_safe = 0;
   G.body_start = 0; G.body_cb = 0; G.body_stop = 0; G.defers = 0; G.my_completes = 0; G.stop_constructs = 0; G.stop_destructs = 0; G.holder_resets = 0; G.made_shared = 0;
   G.fallbacks = 0; G.cb_impl_calls = 0; G.locks = 0; G.stored = 0; G.errors = 0; G.factory_calls = 0; G.wraps = 0; G.lambda_calls = 0; G.lambda_evt = -1; G.lambda_self = 0;
@@ -606,7 +608,7 @@ void h_safe_callback(void) {
   /* ASSUMPTION of this unit: nothing completes the operation between weak_.lock() and callback_impl()'s lock */
   G.env_mode = ENV_PROT; h_cb_state(); __CPROVER_assume(!G.dead && OP.safe_cb_holder_ == &HC);
 #else
-  h_cb_state(); G.inflight_env = VF_nondet_bool();
+  h_cb_state(); G.inflight_env = VF_nondet_bool() ? 1 : 0;
 #endif
   safe_callback_call(&SAFE_CB);
   VF_CANARY("after the safe callback");
@@ -659,7 +661,7 @@ static _Bool lstep(int kind, struct lstate a, struct lstate* out, uint8_t* actor
   return en;
 }
 void lemma_basic_protocol(void) {
-  G.sends_done = VF_nondet_bool();
+  G.sends_done = VF_nondet_bool() ? 1 : 0;
   struct lstate a, b; a.p = any_proto(); a.owner = VF_nondet_u8();
   __CPROVER_assume(a.owner <= PT_STOP && a.p.claim == (a.owner ? CL_ENV : CL_NONE) && LI(a.p));
   int kind = VF_nondet_int();
@@ -689,7 +691,7 @@ void lemma_basic_protocol(void) {
   }
 }
 void lemma_basic_rely(void) {
-  G.sends_done = VF_nondet_bool();
+  G.sends_done = VF_nondet_bool() ? 1 : 0;
   struct proto a = any_proto(), b = any_proto(), c = any_proto();
   int mode = VF_nondet_int();
   __CPROVER_assume(mode >= ENV_STOP_ONLY && mode <= ENV_FREE);
@@ -702,7 +704,7 @@ void lemma_basic_rely(void) {
   VF_P(RELY(a, c, mode), "lemma: the rely is transitive");
 }
 void lemma_basic_init(void) {
-  G.sends_done = VF_nondet_bool();
+  G.sends_done = VF_nondet_bool() ? 1 : 0;
   VF_P(LIV(/*@EXPR phase_init*/, 0, 0, (/*@EXPR holder_init*/) != 0, CL_NONE, 0, SC_NONE, 0) && (/*@EXPR recursion_init*/) == 0, "lemma: a freshly constructed operation satisfies the monitor invariant");
   VF_P(starting != started && started != stopped_early && stopped_early != completed_normally && starting != stopped_early && starting != completed_normally && started != completed_normally && completed_normally <= 3, "lemma: four distinct phases");
   struct state_t s; s.recursion_ = 1;
